@@ -43,6 +43,12 @@ CHECKS = {
  "C15": dict(cat="proof", tech="contract-based deductive: controller functions traced from the real code; saturation bounds as per-call postconditions decided by z3/cvc5 over the extracted piecewise graphs (hybrid ring+SMT encoder), stick maps and error laws as ring identities (ALG), call-site (modular) obligations on top of the log/exp contracts",
              text="Integrator output within +-i_max for every previous state, filter coefficient in (0,1), feedback term <= 30% of weight, height integrator within its limit, yaw set-point in [-pi, pi], 2 m leash, reset; stick maps linear; attitude laws: omega = kp*e (resp. J_l(e) diag(kp) e), R(q) exp(e) = R(q_r), and e = 0 exactly for q_r = q and q_r = -q. Bounds hold for every previous state, hence along arbitrarily long runs.",
              note="A-GRAPH; real arithmetic; z3/cvc5; libm contract of remainder; closed-form cell for `reach` (Taylor cell in C06); callee contracts from C03/C07", ref="5/C15"),
+ "C11": dict(cat="proof", tech="contract-based deductive, modular: estimator step functions traced with util.rk4 / sqrt_covariance_predict / sqrt_correct / SO3Mrp.from_Matrix replaced by their contracts at the call sites; call-site obligations as ring identities (ALG), norm bound by SMT, rejection frame and error-code ranges structurally on the real graphs",
+             text="predict: the field handed to RK4 is the bias-corrected MRP kinematics, F and Q handed to the square-root propagation are the right-invariant error Jacobian and the stated noise matrix, the result is shadow-switched (same rotation, norm <= 1) and the covariance factor lower triangular; corrections: a non-zero code returns the inputs entrywise, an accepted one returns the callee's W+ (P+ <= P by C10); initialisation hands exactly the true attitude matrix to from_Matrix on the accepted cell and returns exact zero on rejection.",
+             note="A-GRAPH; real arithmetic; callee contracts from C05/C07/C10; finiteness of accepted corrections not decided; -0.0 -> +0.0 in the rejection frame", ref="5/C11"),
+ "C12": dict(cat="proof", tech="contract-based deductive: only the two per-call clauses — simulated sensor models as ring identities (ALG) and the 6-state write-back of accepted corrections with sqrt_correct by contract",
+             text="PARTIAL: the noise-free simulated accelerometer/magnetometer equal R(r)^T times a fixed world vector of the configured magnitude; an accepted magnetometer/accelerometer correction updates every gyro-bias component by its Kalman increment. The convergence clause over the message history is not decided by any contract.",
+             note="A-GRAPH; real arithmetic; callee contract C10.sqrt_correct; closed-loop convergence / no-NaN-over-history clause NOT decided (whole-trajectory property)", ref="5/C12"),
 }
 NA = {
  "C17": "closed-loop convergence of the hybrid cascade from an envelope of initial conditions is a whole-trajectory property; no pre/postcondition on a function of /repo expresses it short of a Lyapunov certificate (its per-call ingredients are C13, C15, C16)",
